@@ -65,7 +65,7 @@ def grid(tier):
                 k += 1
                 yield {"base": "gen", "seed": k, "wrap": False, "ts": ["redelimit"], "dlm": dlm, "to": [dlm, pad]}
     for c in range(1, 9):
-        for w in range(1, c + 1):
+        for w in list(range(1, c + 1)) + [c + 1, 2 * c, 2 * c + 1, 1000]:
             k += 1
             yield {"base": "gen", "seed": k, "wrap": True, "ts": ["rewrap"], "dlm": "SPACE", "ncurves": c, "width": w}
     for fn in corpus():
@@ -122,15 +122,24 @@ SEPS = {"SPACE": " ", "TAB": "\t", "COMMA": ","}
 def render_gen(secs, a, tail, wrap_width, sep, layout, eol, final, c):
     rows = a["rows"]
     if wrap_width:
+        widths = wrap_width if isinstance(wrap_width, list) else [wrap_width]
         phys = []
-        for row in rows:
-            widths = wrap_width if isinstance(wrap_width, list) else [wrap_width]
+        if max(widths) > c:
+            flat = [t for row in rows for t in row]          # lines may span depth steps
             k, wi = 0, 0
-            while k < len(row):
+            while k < len(flat):
                 w = widths[wi % len(widths)]
-                phys.append(row[k:k + w])
+                phys.append(flat[k:k + w])
                 k += w
                 wi += 1
+        else:
+            for row in rows:
+                k, wi = 0, 0
+                while k < len(row):
+                    w = widths[wi % len(widths)]
+                    phys.append(row[k:k + w])
+                    k += w
+                    wi += 1
         rows = phys
     aa = dict(a, rows=rows)
     lay = dict(layout)
@@ -197,10 +206,13 @@ def run_case(case, ctx):
         if "pad_fields" in ts:
             layout["pads"] = [fields.pads(rng) for _ in range(7)]
         if "rewrap" in ts and wrap:
-            w = case.get("width") or rng.randint(1, c)
-            wrap_width = w if rng.random() < 0.7 or case.get("width") else [rng.randint(1, c) for _ in range(3)]
+            # "at any token boundary": lines may also hold more than one depth step (up to all values on one line)
+            w = case.get("width") or rng.choice([rng.randint(1, c), rng.randint(1, c), rng.randint(c + 1, 2 * c + 1), r * c])
+            wrap_width = w if rng.random() < 0.7 or case.get("width") else [rng.randint(1, c + 2) for _ in range(3)]
             if isinstance(wrap_width, int):
                 ctx.count("rewrap_width_divides" if c % wrap_width == 0 else "rewrap_width_not_divides")
+                if wrap_width > c:
+                    ctx.count("rewrap_lines_span_depth_steps")
         if "redelimit" in ts and not wrap:
             to, pad = case.get("to") or [rng.choice(["SPACE", "TAB", "COMMA"]), rng.random() < 0.5]
             sep = {"SPACE": rng.choice(["  ", "     "]) if pad else " ", "TAB": " \t " if pad else "\t", "COMMA": rng.choice([", ", " , ", " ,"]) if pad else ","}[to]
